@@ -77,10 +77,20 @@ class Emission:
         # index-search idiom: `for x in range(len(S)): if E == S[x]: <body>` runs its body exactly once
         once_loops = {}
         for lp in walk_local(f.node):
-            if isinstance(lp, ast.For) and isinstance(lp.iter, ast.Call) and norm(lp.iter.func) == "range" and len(lp.body) == 1 and isinstance(lp.body[0], ast.If) \
-                    and not lp.body[0].orelse and isinstance(lp.body[0].test, ast.Compare) and isinstance(lp.body[0].test.ops[0], ast.Eq) \
-                    and "[%s]" % norm(lp.target) in norm(lp.body[0].test):
-                once_loops[id(lp)] = lp
+            if isinstance(lp, ast.For) and len(lp.body) == 1 and isinstance(lp.body[0], ast.If) and not lp.body[0].orelse \
+                    and isinstance(lp.body[0].test, ast.Compare) and isinstance(lp.body[0].test.ops[0], (ast.Eq, ast.Is)):
+                t = norm(lp.body[0].test)
+                sides = {norm(lp.body[0].test.left), norm(lp.body[0].test.comparators[0])}
+                elem = None
+                if isinstance(lp.iter, ast.Call) and norm(lp.iter.func) == "range":
+                    elem = "[%s]" % norm(lp.target)  # S[x]
+                    hit = elem in t
+                elif isinstance(lp.iter, ast.Call) and norm(lp.iter.func) == "enumerate" and isinstance(lp.target, ast.Tuple) and len(lp.target.elts) == 2:
+                    hit = norm(lp.target.elts[1]) in sides
+                else:
+                    hit = norm(lp.target) in sides
+                if hit:
+                    once_loops[id(lp)] = lp
         in_once = set()
         for lp in once_loops.values():
             for x in ast.walk(lp.body[0]):
@@ -522,7 +532,23 @@ def check_c03_all(ctx, R):
     R.rule("B4", "emitted positions are true positions")
     n = _position_counters(ctx, R, ctx.P.cls(COMP, "ComposeEdif"), "B4", 1)
     R.count("hand-maintained position counters (B4)", n)
-    R.floor("hand-maintained position counters (B4)", 1)
+    # a hand-maintained counter may legitimately be replaced by enumerate(); the recogniser itself is exercised on a built-in example
+    from ..core import Module
+    probe = Module("probe/counter.py", "class C:\n    def w(self, xs, out):\n        i = 0\n        for x in xs:\n            if x is None:\n                continue\n            out.write(str(i))\n            i += 1\n")
+    class _Sink:
+        n_bad = 0
+
+        def rule(self, *a, **k):
+            pass
+
+        def ok(self, *a, **k):
+            pass
+
+        def bad(self, *a, **k):
+            self.n_bad += 1
+    sink = _Sink()
+    if _position_counters(ctx, sink, probe.classes["C"], "B4", 0) != 1 or sink.n_bad != 1:
+        raise AnalysisError("B4 positive example no longer matches")
     # B5: the reader parks names it has just read (identifier, original identifier, the names inside a reference) under scratch keys
     # of the element under construction; whoever picks one up removes it.  A read that leaves it in place hands the same name to
     # the next construct (a later property inherits a rename it never had) or leaves it in the element's data.
